@@ -235,6 +235,19 @@ class Env:
     def yf(self, dc, d1, d2):
         return self.DayCount(dc).year_frac(d1, d2)[0]
 
+    @staticmethod
+    def rule_pw_rate(tag, ts, rs, t):
+        """the documented zero rate of a piecewise-flat ('PWF') / piecewise-linear ('PWL') zero curve at time t (>= 2 pillars for
+        PWL): the section is the one ending at the first pillar after the first whose time exceeds t; beyond the last pillar
+        the last rate.  Written independently of the source (same rule as Model.C02 pwfRate / pwlRate)."""
+        t = max(t, 1e-12 if tag == 'PWF' else 1e-6)
+        for i in range(1, len(ts)):
+            if ts[i] > t:
+                if tag == 'PWF':
+                    return rs[i - 1]
+                return ((ts[i] - t) * rs[i - 1] + (t - ts[i - 1]) * rs[i]) / (ts[i] - ts[i - 1])
+        return rs[-1]
+
     # ------------------------------------------------------------------ component 1: _uinterpolate
     def component_uinterp(self):
         np = self.np
@@ -505,8 +518,14 @@ class Env:
                         ctx.violation('1 + fwd_rate*alpha differs from df1/df2', case | {'alpha': a}, clause='fwd-rate-ratio')
                     ctx.count('views/fwd_rate', 1)
             elif isinstance(fw, str):
-                ctx.violation('fwd_rate raised', desc | {'start': self.dstr(q), 'end': self.dstr(q2), 'dc': dc.name, 'error': fw},
-                              clause='fwd-rate-raises')
+                if self.yf(dc, q, q2) == 0.0:
+                    # e.g. 30th -> 31st under a 30/360 convention: the accrual period has length 0, no simple rate f with
+                    # 1 + f*alpha = df1/df2 exists (theorem fwd_rate_is_df_ratio needs alpha != 0); the call divides by zero
+                    # (inf with NumPy scalars, ZeroDivisionError with Python floats) -- outside the domain of this view
+                    self.tick('fwd_rate/zero-accrual-period-skipped')
+                else:
+                    ctx.violation('fwd_rate raised', desc | {'start': self.dstr(q), 'end': self.dstr(q2), 'dc': dc.name, 'error': fw},
+                                  clause='fwd-rate-raises')
             # ---- fwd: one-day log ratio
             q1 = q.add_days(1)
             d1 = self.call(curve.df, q1)
@@ -553,11 +572,49 @@ class Env:
                         ctx.violation('swap_rate * annuity differs from df(start) - df(end)', case, clause='swap-annuity')
                     ctx.count('views/swap_rate', 1)
 
+    def refine_continuous(self, curve, time_of, q, q1, a, b, thresh):
+        """The one-day step |ln df(q+1) - ln df(q)| exceeds `thresh`.  Continuity says increments vanish with the step, a
+        jump does not: walk the same day in N equal sub-steps of the curve's own time axis (df(date) = df_t(time_of(date))
+        on these classes) with N chosen so that a function of roughly uniform slope moves <= thresh/4 per sub-step.
+        Returns None when the curve is steep but continuous over the day (every sub-step <= thresh: the sensitivity to a
+        jump is the same `thresh` as on a flat stretch), else a dict describing the sub-step that still jumps."""
+        t0, t1 = time_of(q), time_of(q1)
+        e0, e1 = self.call(curve.df_t, float(t0)), self.call(curve.df_t, float(t1))
+        if isinstance(e0, str) or isinstance(e1, str) or fl(e0) != a or fl(e1) != b:
+            return {'refine': 'df_t(time of the date) is not df(date)', 'df_t(d)': str(e0), 'df_t(d+1)': str(e1)}
+        n = int(min(4096, max(8, math.ceil(4.0 * abs(math.log(b / a)) / thresh))))
+        prev_t, prev_v = t0, a
+        for k in range(1, n + 1):
+            tk = t1 if k == n else t0 + (t1 - t0) * k / n
+            x = self.call(curve.df_t, float(tk))
+            if isinstance(x, str) or not (fl(x) > 0.0 and math.isfinite(fl(x))):
+                return {'refine': 'df_t is not a positive finite number inside the day', 't': tk, 'df_t': str(x)}
+            x = fl(x)
+            if abs(math.log(x / prev_v)) > thresh:
+                return {'refine': f'a sub-step of 1/{n} day still moves ln df by more than the one-day bound',
+                        't_a': prev_t, 'df_a': prev_v, 't_b': tk, 'df_b': x, 'substeps': n}
+            prev_t, prev_v = tk, x
+        self.tick('continuity/steep-but-continuous-by-refinement')
+        return None
+
     def common_oracles(self, curve, desc, qs, dfq, monotone, cont_until=None, jump_dates=(), fwd_scale=0.2,
-                       df1_finding=None, pos_finding=None, mono_finding=None, own_dc=None):
-        """df(valuation)=1, positive & finite, monotone (when promised), continuity scan (no jump between adjacent days)."""
+                       df1_finding=None, pos_finding=None, mono_finding=None, own_dc=None, simple_rt=None, time_of=None,
+                       jump_times=None):
+        """df(valuation)=1, positive & finite, monotone (when promised), continuity scan (no jump between adjacent days).
+        simple_rt: for a class whose rule is df = 1/(1 + r(t) t) (SIMPLE compounding applied at the query), the function
+        date -> (r, t) of the documented rule, written independently of the source.  A simple rate is a rate only where
+        1 + r t > 0 (Spec.C02 `Admissible`, hypothesis of `zeroToDf_pos`); elsewhere the rule itself has no positive
+        discount factor and the (curve, date) pair is outside the property's domain.
+        time_of: date -> time with df(date) == df_t(time) (classes that offer the year-time route), used to tell a steep
+        but continuous stretch from a jump."""
         ctx = self.ctx
         v = curve.value_dt
+
+        def den(q):
+            if simple_rt is None:
+                return None
+            r_, t_ = simple_rt(q)
+            return 1.0 + r_ * max(t_, 1e-12)
         d0 = dfq.get(v.excel_dt)
         f1 = df1_finding(v) if df1_finding else None
         if own_dc is not None and self.yf(own_dc, v, v) != 0.0:
@@ -569,9 +626,17 @@ class Env:
         ctx.count('oracle/df-valuation-one', 1, 0)
         prev = None
         nmono = 0
+        nout = 0
         for q in qs:
             d = dfq[q.excel_dt]
             pf = pos_finding(q) if pos_finding else None
+            dn = den(q)
+            if dn is not None and not dn > 0.0:
+                # 1 + r t <= 0: not a simple rate for this maturity, the construction rule has no positive df here
+                self.tick('out-of-domain/simple-rate-with-1+rt<=0')
+                nout += 1
+                prev = None
+                continue
             if isinstance(d, str) or not (d > 0.0 and math.isfinite(d)):
                 ctx.violation('df is not a positive finite number', desc | {'query': self.dstr(q), 'df': d}, finding=pf,
                               clause='positive-finite')
@@ -584,7 +649,7 @@ class Env:
                               clause='monotone')
             nmono += 1 if monotone else 0
             prev = (q, d)
-        ctx.count('oracle/positive-finite', len(qs))
+        ctx.count('oracle/positive-finite', len(qs) - nout)
         if monotone:
             ctx.count('oracle/monotone', nmono)
         # continuity scan: df on consecutive days around every pillar/jump-free date must not jump
@@ -596,23 +661,45 @@ class Env:
             q1 = q.add_days(1)
             if q1.excel_dt in jumps or isinstance(a, str) or not a > 0:
                 continue
+            if jump_times:
+                # the permitted jumps of a piecewise-flat zero curve sit at its pillars' TIMES: under a 30/360-type day count
+                # another date can share a pillar's time (31 May and 1 June under 30E+/360), and the step is taken on it
+                ta_, tb_ = self.yf(own_dc, v, q), self.yf(own_dc, v, q1)
+                if any(ta_ < tk <= tb_ for tk in jump_times):
+                    self.tick('continuity/skipped-own-jump-at-pillar-time')
+                    continue
+            thresh = fwd_scale / 365.0 * 3.0
+            if simple_rt is not None:
+                # ln df = -ln(1 + r t): its slope is (r + r' t) / (1 + r t), i.e. the rate scale divided by 1 + r t
+                dn0, dn1 = den(q), den(q1)
+                if not (dn0 > 0.0 and dn1 > 0.0):
+                    continue
+                thresh *= max(1.0, 1.0 / dn0, 1.0 / dn1)
             b = self.call(curve.df, q1)
             if isinstance(b, str):
                 continue
             b = fl(b)
             ns += 1
-            if not (b > 0) or abs(math.log(b / a)) > fwd_scale / 365.0 * 3.0:
+            if not (b > 0) or abs(math.log(b / a)) > thresh:
                 if pos_finding and (pos_finding(q1) or pos_finding(q)):
                     ctx.violation('df jumps between adjacent days', desc, finding=pos_finding(q1) or pos_finding(q), clause='continuity')
-                else:
-                    ctx.violation('df jumps between adjacent days (one-day forward exceeds every rate scale of the curve)',
-                                  desc | {'d': self.dstr(q), 'df': a, 'd+1': self.dstr(q1), 'df+1': b,
-                                          'one_day_fwd': math.log(a / b) * 365 if b > 0 else None, 'scale': fwd_scale},
-                                  clause='continuity')
+                    continue
+                extra = {}
+                if time_of is not None and b > 0 and math.isfinite(b) and math.isfinite(a):
+                    extra = self.refine_continuous(curve, time_of, q, q1, a, b, thresh)
+                    if extra is None:
+                        continue
+                ctx.violation('df jumps between adjacent days (one-day forward exceeds every rate scale of the curve)',
+                              desc | {'d': self.dstr(q), 'df': a, 'd+1': self.dstr(q1), 'df+1': b,
+                                      'one_day_fwd': math.log(a / b) * 365 if b > 0 else None, 'scale': fwd_scale} | extra,
+                              clause='continuity')
         ctx.count('oracle/continuity', ns)
 
-    def df_all(self, curve, qs, desc, finding=None):
-        """df(date) scalar for every query + vector call; returns {serial: float|errkind}"""
+    def df_all(self, curve, qs, desc, finding=None, atol_val=0.0):
+        """df(date) scalar for every query + vector call; returns {serial: float|errkind}.
+        atol_val: at the valuation date a zero-rate curve's knot is converted at the documented time floor 1e-12 (Model.C02
+        zeroToDf: max t 1e-12), i.e. its df is 1 - r*1e-12, while the scalar spline route returns exactly 1 for |t| < 1e-12:
+        the two routes may differ there by |r|*1e-12 (and by nothing more)."""
         ctx, np = self.ctx, self.np
         out = {}
         for q in qs:
@@ -628,7 +715,8 @@ class Env:
             vv = np.asarray(vec, dtype=float).ravel()
             for q, x in zip(qs, vv):
                 s = out[q.excel_dt]
-                if isinstance(s, str) or not (s == float(x) or (math.isnan(s) and math.isnan(x)) or close(s, float(x), rtol=1e-13, atol=0)):
+                if isinstance(s, str) or not (s == float(x) or (math.isnan(s) and math.isnan(x)) or close(s, float(x), rtol=1e-13, atol=0)
+                                              or (q.excel_dt == curve.value_dt.excel_dt and abs(s - float(x)) <= atol_val)):
                     ctx.violation('df(list)[i] differs from df(date_i)', desc | {'query': self.dstr(q), 'scalar': s, 'vector': float(x)},
                                   finding=finding(q) if finding else None, clause='scalar-vs-vector')
         ctx.count('oracle/scalar-vs-vector', len(qs))
@@ -712,7 +800,8 @@ class Env:
                 return None
             self.common_oracles(curve, desc, qs, dfq, monotone=(fwd_nonneg and it == self.IT.FLAT_FWD_RATES and not single_knot),
                                 cont_until=(last if is_spline else None), fwd_scale=rate_scale * (4.0 if is_spline else 1.0),
-                                pos_finding=posf)
+                                pos_finding=posf,
+                                time_of=(lambda q, _v=v: self.yf(self.DCT.ACT_ACT_ISDA, _v, q)) if is_spline else None)
             # ---- pillar reproduction (date domain)
             for p, dk in zip(pill, dfs):
                 d = dfq[p.excel_dt]
@@ -721,9 +810,18 @@ class Env:
                     finding = None
                     if single(p):
                         finding = single(p)
-                    elif touches_leap(v, p) and isinstance(d, float) and d > 0 and \
-                            abs(math.log(d / dk)) <= self.leap_bound(v, p, rate_scale * (4.0 if is_spline else 1.0)):
-                        finding = 'C02/leap-time-axis'
+                    elif touches_leap(v, p) and isinstance(d, float) and d > 0:
+                        # mechanism of the finding (theorems leap_pillar_not_reproduced / leap_pillar_reproduced_at_knot_time):
+                        # the knot sits at days/365, where the curve DOES return the input, and df(date) is the curve at the
+                        # ACT/ACT ISDA time.  Local kernels have slopes bounded by the knot forwards, so there the miss must
+                        # also fit the time difference; a spline through knots one day apart can be arbitrarily steep.
+                        t365 = (p.excel_dt - v.excel_dt) / 365.0
+                        tA = self.yf(self.DCT.ACT_ACT_ISDA, v, p)
+                        at_t, at_tA = self.call(curve.df_t, float(t365)), self.call(curve.df_t, float(tA))
+                        if (tA != t365 and not isinstance(at_t, str) and not isinstance(at_tA, str)
+                                and close(fl(at_t), dk, rtol=tol, atol=0) and fl(at_tA) == d
+                                and (is_spline or abs(math.log(d / dk)) <= self.leap_bound(v, p, rate_scale))):
+                            finding = 'C02/leap-time-axis'
                     ctx.violation('input pillar discount factor is not reproduced at the pillar date',
                                   desc | {'pillar': self.dstr(p), 'pillar_df': dk, 'df': d,
                                           't_pillar_365': (p.excel_dt - v.excel_dt) / 365.0,
@@ -744,8 +842,9 @@ class Env:
                     if isinstance(x, str) and isinstance(d, str) and x == d:
                         continue   # the base curve itself fails on this query (decided by the df oracles); same failure
                     if isinstance(x, str) or isinstance(d, str) or not close(x, d, rtol=1e-9, atol=0):
+                        # a one-knot curve and its bumped copy both read outside their arrays off the knot: two unspecified outcomes
                         ctx.violation('bump(0.0).df differs from df', desc | {'query': self.dstr(q), 'df': d, 'bumped': x},
-                                      finding=('C02/leap-time-axis' if touches_leap(v, pill[-1]) and isinstance(x, float) and isinstance(d, float)
+                                      finding=single(q) or ('C02/leap-time-axis' if touches_leap(v, pill[-1]) and isinstance(x, float) and isinstance(d, float)
                                                and x > 0 and d > 0 and abs(math.log(x / d)) <= self.leap_bound(v, pill[-1], rate_scale * 4) else None),
                                       clause='bump-zero')
             # a non-zero bump must leave the ORIGINAL curve untouched (the bumped curve is a new object)
@@ -759,7 +858,8 @@ class Env:
                         continue
                     if isinstance(d0, str) or isinstance(d1, str) or not (d0 == d1 or close(d0, d1, rtol=1e-13, atol=0)):
                         ctx.violation('curve.df changed after calling curve.bump(non-zero) on the same curve object',
-                                      desc | {'query': self.dstr(q), 'df_before': d0, 'df_after_bump': d1}, clause='bump-leaves-original')
+                                      desc | {'query': self.dstr(q), 'df_before': d0, 'df_after_bump': d1}, finding=single(q),
+                                      clause='bump-leaves-original')
                         break
             ctx.count('oracle/bump', 1)
             if not single_knot:
@@ -820,10 +920,17 @@ class Env:
             # region touched by the missing anchor knot: before the first pillar (wrap-around read / left extrapolation)
             # and, for the two kernels whose `i == 1` branch ignores knot 0, up to the second pillar
             second = pill[1] if len(pill) > 1 else None
-            first_branch = (not on_val) and it in (self.IT.LINEAR_ZERO_RATES, self.IT.LINEAR_FWD_RATES) and second is not None
+            # The missing anchor acts on the curve's TIME axis: knots sit at the day-count times ts, df(date) looks up the
+            # ACT/ACT ISDA time of the date.  `anchored`: the first knot is at time 0.  A first pillar ON the valuation date is
+            # not at time 0 under a day count that is non-zero from a date to itself (30E+/360 on a 31st: 1/360, C15).
+            anchored = ts[0] == 0.0
+            if on_val and not anchored:
+                self.tick('Zeros/on-val-but-first-knot-time-nonzero')
+            first_branch = (not anchored) and it in (self.IT.LINEAR_ZERO_RATES, self.IT.LINEAR_FWD_RATES) and second is not None
 
-            def before_first(q, _f=first, _s=second):
-                return q.excel_dt < _f.excel_dt or (first_branch and _f.excel_dt < q.excel_dt < _s.excel_dt)
+            def before_first(q, _v=v, _ts=ts):
+                tq_ = self.yf(self.DCT.ACT_ACT_ISDA, _v, q)
+                return tq_ < _ts[0] or (first_branch and _ts[0] < tq_ < _ts[1])
 
             def posf(q, _last=pill[-1]):
                 if single_knot:
@@ -834,7 +941,7 @@ class Env:
                     return 'C02/spline-extrapolation'
                 return None
             qs = self.gen_queries(rng, v, pill)
-            dfq = self.df_all(curve, qs, desc, finding=posf)
+            dfq = self.df_all(curve, qs, desc, finding=posf, atol_val=(1.01e-12 * abs(rs[0]) if anchored else 0.0))
             kd = [self.spec_z2d(fr.value, r, t) for r, t in zip(rs, ts)]
             rate_scale = 0.03 + 3 * max(abs(r) for r in rs)
             for k in range(1, len(ts)):
@@ -849,14 +956,15 @@ class Env:
                     cmp_.add(op, d, meta | {'oob_unspecified': single_knot and tq != ts[0]})
 
             def df1f(vv):
-                if single_knot and not on_val:
+                if single_knot and not anchored:
                     return 'C02/single-knot-curve'
-                return 'C02/zeros-first-pillar-after-valuation' if not on_val else None
+                return 'C02/zeros-first-pillar-after-valuation' if not anchored else None
             fwd_nonneg = all(b <= a for a, b in zip(kd[:-1], kd[1:])) and kd[0] <= 1.0
             self.common_oracles(curve, desc, qs, dfq, monotone=(fwd_nonneg and it == self.IT.FLAT_FWD_RATES and not single_knot),
                                 cont_until=(pill[-1] if is_spline else None), fwd_scale=rate_scale * (4.0 if is_spline else 1.0),
                                 df1_finding=df1f, pos_finding=posf,
-                                mono_finding=lambda a, b: ('C02/zeros-first-pillar-after-valuation' if before_first(a) else None))
+                                mono_finding=lambda a, b: ('C02/zeros-first-pillar-after-valuation' if before_first(a) else None),
+                                time_of=(lambda q, _v=v: self.yf(self.DCT.ACT_ACT_ISDA, _v, q)) if is_spline else None)
             # ---- pillar reproduction: the input zero rate comes back at its own date (and so does its df)
             for p, r, t, dk in zip(pill, rs, ts, kd):
                 if t <= 0:
@@ -866,12 +974,29 @@ class Env:
                 tol = 1e-9 if (it == self.IT.LINEAR_FWD_RATES or is_spline) else 1e-11
                 if isinstance(d, str) or not close(d, dk, rtol=tol, atol=0):
                     finding = None
+                    # the mechanism of the time-axis finding, tested on the failing case: the knot sits at the day-count time t
+                    # (the curve DOES return the input there) while df(date) is the curve at the ACT/ACT ISDA time tA != t.
+                    # Both times are computed here with DayCount, so a curve that misplaces its knots or looks up another
+                    # time fails the test.  Local kernels have slopes bounded by the knot forwards: there the size of the
+                    # miss must also fit |tA - t|; a spline through knots one day apart can be arbitrarily steep.
+                    at_t, at_tA = self.call(curve.df_t, float(t)), self.call(curve.df_t, float(tA))
+                    axis = (tA != t and isinstance(d, float) and d > 0 and not isinstance(at_t, str) and not isinstance(at_tA, str)
+                            and close(fl(at_t), dk, rtol=tol, atol=0) and fl(at_tA) == d
+                            and (is_spline or abs(math.log(d / dk)) <= 4 * rate_scale * abs(tA - t) + 1e-12))
                     if single_knot:
-                        finding = 'C02/single-knot-curve' if (abs(tA - t) > 1e-14 or is_spline) else None
-                    elif p is first and not on_val and abs(tA - t) > 1e-14:
-                        # the query time misses the first knot and lands in the region governed by the missing anchor
+                        # any query time that is not bit-for-bit the knot's time reads outside the arrays
+                        finding = 'C02/single-knot-curve' if (tA != t or is_spline) else None
+                    elif p is first and not anchored and tA < t:
+                        # the query time falls short of the first knot: the region governed by the missing anchor
                         finding = 'C02/zeros-first-pillar-after-valuation'
-                    elif isinstance(d, float) and d > 0 and abs(tA - t) > 1e-14 and abs(math.log(d / dk)) <= 4 * rate_scale * abs(tA - t) + 1e-12:
+                    elif p is first and first_branch and t < tA <= ts[1]:
+                        # the query time overshoots the first knot (possibly by one ulp) into the first interval, where the
+                        # `i == 1` branch of these two kernels takes the zero rate of knot 1 alone and ignores knot 0 (the
+                        # branch is written for an anchor at t = 0).  Excused only at the value that branch predicts.
+                        z1 = (-math.log(kd[1]) / ts[1]) if it == self.IT.LINEAR_ZERO_RATES else (-math.log(kd[1] + 1e-10) / (ts[1] + 1e-10))
+                        if isinstance(d, float) and close(d, math.exp(-z1 * tA), rtol=1e-9, atol=0):
+                            finding = 'C02/zeros-first-pillar-after-valuation'
+                    elif axis:
                         # pillars sit at the curve's day-count time, df(date) looks up the ACT/ACT ISDA time
                         finding = 'C02/zeros-daycount-time-axis'
                     ctx.violation('input zero rate is not reproduced at its pillar date (df(pillar) != df implied by the input rate)',
@@ -921,7 +1046,8 @@ class Env:
                         ctx.violation('df_t(year fraction of the date) differs from df(date) on a flat curve',
                                       meta | {'df': d, 'df_t': x}, finding=finding, clause='df-vs-df_t')
             ctx.count('oracle/flat-rate-reproduction', len(qs))
-            self.common_oracles(curve, desc, qs, dfq, monotone=(r >= 0), fwd_scale=0.02 + 2 * abs(r), own_dc=dc)
+            self.common_oracles(curve, desc, qs, dfq, monotone=(r >= 0), fwd_scale=0.02 + 2 * abs(r), own_dc=dc,
+                                simple_rt=(lambda q, _v=v, _r=r, _dc=dc: (_r, self.yf(_dc, _v, q))) if fr == self.F.SIMPLE else None)
             self.views(rng, curve, desc, qs, dfq, cmp_, nviews=1)
         cmp_.flush(self.ok)
 
@@ -974,9 +1100,13 @@ class Env:
                         if ts[k] > ts[k - 1]:
                             rate_scale = max(rate_scale, 2 * abs((rs[k] * ts[k] - rs[k - 1] * ts[k - 1]) / (ts[k] - ts[k - 1])),
                                              abs(rs[k] - rs[k - 1]) / (ts[k] - ts[k - 1]) * ts[k] * 2)
+                srt = None
+                if fr == self.F.SIMPLE and not single:
+                    srt = (lambda q, _v=v, _dc=dc, _ts=ts, _rs=rs, _tag=tag:
+                           (lambda t_: (self.rule_pw_rate(_tag, _ts, _rs, t_), t_))(self.yf(_dc, _v, q)))
                 self.common_oracles(curve, desc, qs, dfq, monotone=False, fwd_scale=rate_scale,
                                     jump_dates=(pill if tag == 'PWF' else ()), df1_finding=(lambda vv: 'C02/pwl-single-pillar') if single else None,
-                                    pos_finding=fs, own_dc=dc)
+                                    pos_finding=fs, own_dc=dc, simple_rt=srt, jump_times=(ts if tag == 'PWF' else None))
                 # pillar reproduction: zero rate in the curve's own convention at the pillar's own date
                 for p, r, t in zip(pill, rs, ts):
                     if t <= 0 or (tag == 'PWL' and t < 1e-6):
@@ -1074,6 +1204,17 @@ class Env:
             qs = self.gen_queries(rng, v, pill)
             dfq = self.df_all(curve, qs, desc)
             zmax = 0.0
+
+            def zr_of(t_, _kind=kind, _par=par):
+                """the documented parametric zero rate, written independently of the source"""
+                tt = max(t_, 1e-12)
+                if _kind == 'NS':
+                    th = tt / _par[3]; e_ = math.exp(-th)
+                    return _par[0] + _par[1] * (1 - e_) / th + _par[2] * ((1 - e_) / th - e_)
+                if _kind == 'NSS':
+                    t1, t2 = tt / _par[4], tt / _par[5]; e1, e2 = math.exp(-t1), math.exp(-t2)
+                    return _par[0] + _par[1] * (1 - e1) / t1 + _par[2] * ((1 - e1) / t1 - e1) + _par[3] * ((1 - e2) / t2 - e2)
+                return sum(c_ * tt ** n_ for n_, c_ in enumerate(_par))
             for q in qs:
                 t = self.yf(dc, v, q)
                 if kind == 'Poly':
@@ -1082,23 +1223,15 @@ class Env:
                     op = '%s %d %s %s' % (kind, fr.value, ' '.join(map(f2b, par)), f2b(t))
                 cmp_.add(op, dfq[q.excel_dt], desc | {'query': self.dstr(q), 't_dc': t})
                 d = dfq[q.excel_dt]
-                # the documented construction rule, written independently of the source
-                tt = max(t, 1e-12)
-                if kind == 'NS':
-                    th = tt / par[3]; e_ = math.exp(-th)
-                    zr = par[0] + par[1] * (1 - e_) / th + par[2] * ((1 - e_) / th - e_)
-                elif kind == 'NSS':
-                    t1, t2 = tt / par[4], tt / par[5]; e1, e2 = math.exp(-t1), math.exp(-t2)
-                    zr = par[0] + par[1] * (1 - e1) / t1 + par[2] * ((1 - e1) / t1 - e1) + par[3] * ((1 - e2) / t2 - e2)
-                else:
-                    zr = sum(c_ * tt ** n_ for n_, c_ in enumerate(par))
+                zr = zr_of(t)
                 want = self.spec_z2d(fr.value, zr, t)
                 if isinstance(d, str) or not close(d, want, rtol=1e-10, atol=0):
                     ctx.violation(f'{kind} curve: df differs from its parametric zero-rate formula', desc | {'query': self.dstr(q), 't_dc': t, 'df': d, 'formula': want},
                                   clause='construction-rule')
                 if t > 0.01 and isinstance(d, float) and d > 0:
                     zmax = max(zmax, abs(math.log(d) / t))
-            self.common_oracles(curve, desc, qs, dfq, monotone=False, fwd_scale=0.05 + 6 * zmax, own_dc=dc)
+            self.common_oracles(curve, desc, qs, dfq, monotone=False, fwd_scale=0.05 + 6 * zmax, own_dc=dc,
+                                simple_rt=(lambda q, _v=v, _dc=dc: (lambda t_: (zr_of(t_), t_))(self.yf(_dc, _v, q))) if fr == self.F.SIMPLE else None)
             self.views(rng, curve, desc, qs, dfq, cmp_, nviews=1)
         cmp_.flush(self.ok)
 
@@ -1183,6 +1316,33 @@ class Env:
         model = C.run_driver('C02', [f'ZC 1 99 2 {f2b(1.0)} {f2b(2.0)} {f2b(0.01)} {f2b(0.02)} {f2b(0.0)}'])[0] if self.ok else None
         if model and not close(b2f(model), d, rtol=RTOL):
             ctx.broke(f'correspondence witness zeros: model {b2f(model)!r} impl {d!r}')
+        # (b2) same finding, first knot missed by one ulp: knot at days/365 (day count SIMPLE), lookup at the ACT/ACT ISDA time one ulp
+        # later; the i==1 branch of LINEAR_FWD returns exp(-z1*t) of knot 1 (seed 4 of the stabilisation sweep)
+        v2 = Date(30, 6, 2038)
+        P2 = [Date(24, 5, 2039), Date(23, 7, 2040), Date(23, 7, 2041)]
+        R2 = [0.05897618653962766, 0.05802475495943327, 0.05677333133328144]
+        z2 = DiscountCurveZeros(v2, P2, R2, self.F.QUARTERLY, self.DCT.SIMPLE, self.IT.LINEAR_FWD_RATES)
+        t_k, t_a = self.yf(self.DCT.SIMPLE, v2, P2[0]), self.yf(self.DCT.ACT_ACT_ISDA, v2, P2[0])
+        d, want = fl(z2.df(P2[0])), self.spec_z2d(4, R2[0], t_k)
+        if not close(d, want, rtol=1e-9, atol=0):
+            k1 = self.spec_z2d(4, R2[1], self.yf(self.DCT.SIMPLE, v2, P2[1]))
+            pred = math.exp(-t_a * (-math.log(k1 + 1e-10)) / (self.yf(self.DCT.SIMPLE, v2, P2[1]) + 1e-10))
+            ctx.violation('input zero rate is not reproduced at its pillar date (df(pillar) != df implied by the input rate)',
+                          {'class': 'DiscountCurveZeros', 'valuation': '30-6-2038', 'pillars': ['24-5-2039', '23-7-2040', '23-7-2041'], 'zero_rates': R2,
+                           'freq': 'QUARTERLY', 'dc': 'SIMPLE', 'interp': 'LINEAR_FWD_RATES', 'pillar': '24-5-2039', 't_pillar_dc': t_k,
+                           't_query_actact': t_a, 'df_expected': want, 'df': d, 'witness': True},
+                          finding='C02/zeros-first-pillar-after-valuation' if (t_k < t_a and close(d, pred, rtol=1e-9, atol=0)) else None,
+                          clause='pillar-reproduction')
+        # (b3) same finding, first pillar ON the valuation date but at time 1/360 (30E+/360 on a 31st)
+        v3 = Date(31, 3, 2038)
+        z3 = DiscountCurveZeros(v3, [v3, Date(31, 3, 2039), Date(23, 8, 2040)], [0.008644334330288217, 0.007373085821057224, 0.022194130485771346],
+                                self.F.QUARTERLY, self.DCT.THIRTY_E_PLUS_360, self.IT.LINEAR_FWD_RATES)
+        d = fl(z3.df(v3))
+        if not close(d, 1.0, rtol=0, atol=1e-10):
+            ctx.violation('df(valuation date) is not 1', {'class': 'DiscountCurveZeros', 'valuation': '31-3-2038', 'pillars': ['31-3-2038', '31-3-2039', '23-8-2040'],
+                                                          'freq': 'QUARTERLY', 'dc': 'THIRTY_E_PLUS_360', 'interp': 'LINEAR_FWD_RATES', 'df_valuation': d, 'witness': True},
+                          finding='C02/zeros-first-pillar-after-valuation' if self.yf(self.DCT.THIRTY_E_PLUS_360, v3, v3) > 0.0 else None,
+                          clause='df-valuation-one')
         # (c) bump
         b = self.call(DiscountCurve(v, [Date(1, 6, 2022)], np.array([0.97])).bump, 0.0001)
         if isinstance(b, str):
@@ -1241,7 +1401,7 @@ class Env:
                                                                                    'zero_rates': [0.01, 0.01, 0.02], 'freq': 'ANNUAL', 'dc': 'ACT_360', 'pillar': '1-6-2022',
                                                                                    'df_expected': want, 'df': a, 'witness': True},
                           finding='C02/zeros-daycount-time-axis' if abs(math.log(a / want)) <= 4 * 0.1 * abs(365.0 / 360.0 - 1.0) else None, clause='pillar-reproduction')
-        ctx.count('witnesses', 10)
+        ctx.count('witnesses', 12)
 
 
 # ------------------------------------------------------------------------------------------------ replay
